@@ -137,6 +137,8 @@ pub struct DispatchRec {
     pub all_avail: bool,
     pub n_handles: usize,
     pub target_in_progress_before: usize,
+    /// number of connections finished so far in the run when this dispatch happened
+    pub finished_before: usize,
 }
 
 thread_local! {
@@ -352,6 +354,7 @@ impl Hooks for SimHooks {
                     all_avail,
                     n_handles,
                     target_in_progress_before: before,
+                    finished_before: sh.conns.borrow().iter().filter(|c| c.finished).count(),
                 });
                 sh.ctx(|ctx| {
                     ev!(ctx, "dispatch c{c} -> w{idx}#{slot} (in progress before: {before})");
